@@ -807,3 +807,79 @@ def rule_gate_orientation(ctx):
                 r.ok(f"TEBD.sweep@{sites}", sample={"requested for": sites, "applied on": sites}, nontrivial=False)
     r.floor(n, 4, "gate applications in TEBD.sweep")
     return r
+
+
+def rule_renorm_at_centre(ctx):
+    r = RuleResult(
+        "renorm-at-centre",
+        "TEBD.sweep renormalises an imaginary-time state by the norm of one site tensor; that equals the norm of the state "
+        "only at the orthogonality centre. In each direction branch the site used (the value the branch leaves in the "
+        "renormalisation index) must be where the branch's last canonization move puts the centre: left_canonize_site(i) "
+        "moves it to i + 1, right_canonize_site(i) to i - 1 (compared as linear forms in L)",
+    )
+    cls = ctx.prog.cls(TEBD1D, "TEBD")
+    sw = cls.methods["sweep"]
+    where = f"{sw.module.relpath}:{sw.lineno}"
+    # the renormalisation:  factor = self._pt[<idx>].norm()
+    idx = None
+    for a in ast.walk(sw.node):
+        if isinstance(a, ast.Call) and isinstance(a.func, ast.Attribute) and a.func.attr == "norm" and isinstance(a.func.value, ast.Subscript) and "_pt" in src_of(a.func.value.value):
+            idx = a.func.value.slice
+    if idx is None:
+        raise AnalysisError("TEBD.sweep: renormalisation by a site norm not found")
+    if not isinstance(idx, ast.Name):
+        raise AnalysisError("TEBD.sweep: renormalisation index is not a local")
+
+    def lin(e):
+        """(coefficient of L, constant) or None"""
+        if isinstance(e, ast.Constant) and isinstance(e.value, int):
+            return (0, e.value)
+        if isinstance(e, ast.Attribute) and e.attr == "L":
+            return (1, 0)
+        if isinstance(e, ast.BinOp) and isinstance(e.op, (ast.Add, ast.Sub)):
+            a, b = lin(e.left), lin(e.right)
+            if a is None or b is None:
+                return None
+            sg = 1 if isinstance(e.op, ast.Add) else -1
+            return (a[0] + sg * b[0], a[1] + sg * b[1])
+        return None
+
+    branches = []
+    for n in ast.walk(sw.node):
+        if isinstance(n, ast.If) and isinstance(n.test, ast.Compare) and isinstance(n.test.left, ast.Name) and n.test.left.id == "direction":
+            cur = n
+            while isinstance(cur, ast.If) and isinstance(cur.test, ast.Compare) and isinstance(cur.test.left, ast.Name) and cur.test.left.id == "direction":
+                branches.append((const_value(cur.test.comparators[0], "?"), cur.body))
+                cur = cur.orelse[0] if len(cur.orelse) == 1 and isinstance(cur.orelse[0], ast.If) else None
+            break
+    if len(branches) < 2:
+        raise AnalysisError("TEBD.sweep: direction branches not found")
+    for label, body in branches:
+        moves = []
+        sets = []
+        for st in body:
+            for x in ast.walk(st):
+                if isinstance(x, ast.Call) and isinstance(x.func, ast.Attribute) and x.func.attr in ("left_canonize_site", "right_canonize_site") and x.args:
+                    moves.append(x)
+                if isinstance(x, ast.Assign) and any(isinstance(t, ast.Name) and t.id == idx.id for t in x.targets):
+                    sets.append(x)
+        # the unconditional (top level of the branch) moves only: the last one decides where the centre ends
+        top_moves = [x for st in body if isinstance(st, ast.Expr) for x in [st.value] if isinstance(x, ast.Call) and isinstance(x.func, ast.Attribute) and x.func.attr in ("left_canonize_site", "right_canonize_site")]
+        if not top_moves or not sets:
+            r.skip(f"TEBD.sweep[{label}]", "no unconditional final canonization move / no renormalisation index in this branch")
+            continue
+        last = max(top_moves, key=lambda x: x.lineno)
+        a = lin(last.args[0])
+        used = lin(max(sets, key=lambda x: x.lineno).value)
+        if a is None or used is None:
+            r.skip(f"TEBD.sweep[{label}]", "site expressions are not linear in L")
+            continue
+        centre = (a[0], a[1] + (1 if last.func.attr == "left_canonize_site" else -1))
+        fmt = lambda lf: (f"{lf[0]}*L" if lf[0] else "") + (f"{lf[1]:+d}" if lf[1] or not lf[0] else "")
+        if centre == used:
+            r.ok(f"TEBD.sweep[{label}]", sample={"direction": label, "last move": src_of(last)[:40], "centre": fmt(centre), "renormalised at": fmt(used)})
+        else:
+            r.bad(Finding("renorm-at-centre", "TEBD.sweep",
+                          f"direction `{label}`: the last move `{src_of(last)[:40]}` leaves the centre at site {fmt(centre)}, but the state is renormalised by the norm of site {fmt(used)} "
+                          "(an isometric tensor there has norm sqrt(bond dimension), not the norm of the state)", where=f"{sw.module.relpath}:{last.lineno}", operand=str(label)))
+    return r
